@@ -137,8 +137,10 @@ impl Profile {
     pub fn base() -> Profile {
         Profile {
             weights: vec![],
-            nicks: (0..8).map(|i| format!("n{}", i)).collect(),
-            chans: vec!["#c0".into(), "#c1".into(), "#c2".into(), "&l0".into(), "#Mixed".into()],
+            // names that differ only in letter case are different names for this server: one such
+            // pair in each pool keeps case-folding on a single code path visible everywhere
+            nicks: (0..8).map(|i| format!("n{}", i)).chain(std::iter::once("N0".to_string())).collect(),
+            chans: vec!["#c0".into(), "#c1".into(), "#c2".into(), "&l0".into(), "#Mixed".into(), "#mixed".into()],
             max_conns: 6,
             oper_names: vec![],
             reg_passwords: vec![],
